@@ -62,6 +62,18 @@ def step (s : St) : Op → St × Out
       | some i => (s, .unit i)
       | none => (s, .err .keyError)
 
-def run (s : St) (ops : List Op) : St := ops.foldl (fun s o => (step s o).1) s
+/-- What Python cannot even express is rejected before `step`: dangling unit references,
+    a `Dimension` whose exponent tuple has the wrong length. -/
+def Op.ok (s : St) (o : Op) : Bool :=
+  o.refs.all (fun r => decide (r < s.units.length)) &&
+  (match o with
+   | .define d _ _ => d.length == s.ndim
+   | _ => true)
+
+/-- The checked step the driver executes. -/
+def stepC (s : St) (o : Op) : St × Out :=
+  if o.ok s then step s o else (s, .err .unmodelled)
+
+def run (s : St) (ops : List Op) : St := ops.foldl (fun s o => (stepC s o).1) s
 
 end Measured
